@@ -54,13 +54,13 @@ GUARD_CFG = "servlin_verif"
 SRC_DEPS = {
     "C01": ["src/head.rs"], "C02": ["src/head.rs: cannot translate the regex", "src/head.rs try_read"],
     "C03": ["src/content_type.rs", "src/request.rs", "src/headers.rs", "src/head.rs try_read"],
-    "C04": ["src/util.rs", "src/http_conn.rs"], "C05": ["src/util.rs", "src/http_conn.rs HttpConn.buf", "src/http_conn.rs state guards", "src/http_conn.rs write_response", "src/http_conn.rs read_body"],
+    "C04": ["src/util.rs", "src/http_conn.rs", "src/lib.rs spawn"], "C05": ["src/util.rs", "src/http_conn.rs HttpConn.buf", "src/http_conn.rs state guards", "src/http_conn.rs write_response", "src/http_conn.rs read_body"],
     "C06": ["src/util.rs", "src/content_type.rs", "src/response.rs write_http_response"], "C07": ["src/util.rs", "src/response.rs write_http_response"], "C08": ["src/util.rs", "src/http_conn.rs write_response", "src/http_conn.rs handle_http_conn", "src/response.rs write_http_response"],
     "C09": ["src/util.rs", "src/http_conn.rs"], "C10": ["src/util.rs", "src/http_conn.rs"],
     "C11": ["src/util.rs", "src/response.rs event_stream", "src/event.rs"],
     "C15": ["src/cookie.rs", "src/headers.rs"], "C16": ["src/time.rs"], "C18": ["src/log/logger.rs log()"],
     "C17": ["src/log/tag_value.rs", "src/log/logger.rs write_jsonl"], "C19": ["src/log/log_file_writer.rs", "src/log/prefix_file_set.rs"],
-    "C14": ["src/headers.rs"], "C12": ["src/token_set.rs", "src/accept.rs accept_loop"], "C13": ["src/accept.rs accept_loop", "src/token_set.rs"],
+    "C14": ["src/headers.rs"], "C12": ["src/token_set.rs", "src/accept.rs accept_loop", "src/lib.rs spawn"], "C13": ["src/accept.rs accept_loop", "src/token_set.rs", "src/lib.rs spawn"],
 }
 
 ALLOWED_AXIOMS = set()  # names of standard-library axioms a property theorem may depend on (none needed so far)
